@@ -53,6 +53,8 @@ class Lib:
 
 
 def step_of(x, el):
+    if x == "e":       # stay inside 0 <= e < 1 (the second-order stencil uses twice the step)
+        return min(0.02, el["e"] / 4, (1 - el["e"]) / 8)
     return {"a": 0.02 * el["a"], "m": 0.02}.get(x, 0.02)
 
 
@@ -95,6 +97,33 @@ def judge(got, ref, err, rel):
 
 
 # ------------------------------------------------------------------ (a) constructors
+def gen_corner_elements(rng, fam, corner):
+    """degenerate elements.  Pal elements are regular everywhere: e = 0 (h = k = 0) and ix = iy = 0 exactly.  The classical
+    elements are singular at e = 0 and inc = 0 (documented in Variation.vary): there the constructors differentiate at the
+    elements reb_orbit_from_particle recovers, so inc = 0 is probed with Omega = 0 (what it recovers) and e with 1e-4, 0.9."""
+    g = gen_elements(rng, fam)
+    el = g["el"]
+    if fam == "pal":
+        if corner in ("e0", "e0i0"):
+            el["h"] = el["k"] = 0.0
+        if corner in ("i0", "e0i0"):
+            el["ix"] = el["iy"] = 0.0
+        if corner == "m0":
+            el["m"] = 0.0
+    else:
+        if corner == "i0":
+            el["inc"] = 0.0; el["Omega"] = 0.0
+        if corner == "esmall":
+            el["e"] = 1e-4
+        if corner == "ebig":
+            el["e"] = 0.9
+        if corner == "ipi":
+            el["inc"] = 3.0
+        if corner == "m0":
+            el["m"] = 0.0
+    return g
+
+
 def gen_elements(rng, fam="orb"):
     # both branches of the Pal Kepler solver (e < 0.3: Newton iteration, e >= 0.3: reb_M_to_E); the region
     # 0.2 <= e < 0.3 did not converge before /repo commit c089d6c (fixed finding pal_kepler_unconverged, probed below)
@@ -590,7 +619,111 @@ def check_derived(lib, spec):
         shutil.rmtree(d, ignore_errors=True)
 
 
-CHECKS = {"constructor": check_constructor, "trajectory": check_trajectory, "rescale": check_rescale, "megno": check_megno, "megno_order": check_megno_order, "python_vary": check_python_vary, "multiset": check_multiset, "softening": check_softening, "rescale_mass": check_rescale_mass, "derived": check_derived}
+def drain_messages(sim):
+    """read every queued message (an unread error makes the next integrate() return at once)"""
+    for _ in range(64):
+        try:
+            sim.process_messages()
+            return
+        except RuntimeError:
+            continue
+
+
+def check_corner(lib, spec):
+    """edges of the quantified space for trajectories: a variation set added at t0 != 0 after steps were taken, integration
+    backwards in time, N_real = 1 and 2, test-particle variation of the first and of the last particle, and continuing with the
+    same object after the documented WHFast refusal of a test-particle variation."""
+    rb = lib.rb
+    mode, integ = spec["mode"], spec["integrator"]
+    fixed = integ in ("whfast", "leapfrog")
+    eft = 0 if fixed else 1
+    h = 1e-6
+
+    def base(nreal=3, sign=1.0):
+        sim = rb.Simulation()
+        sim.integrator = integ
+        if fixed:
+            sim.dt = sign * spec.get("dt", 0.02)
+        sim.add(m=1.)
+        if nreal >= 2:
+            sim.add(m=spec.get("m1", 1e-3), a=1., e=0.1, inc=0.2, omega=0.3, f=spec.get("f1", 0.4))
+        if nreal >= 3:
+            sim.add(m=1e-3, a=1.8, e=0.05, f=1.)
+        return sim
+    c = spec.get("coord", "x")
+    if mode == "late":                      # set added at t0 after steps; finite difference perturbs the state at t0
+        def run(delta, var):
+            sim = base()
+            sim.integrate(spec["t0"], exact_finish_time=eft)
+            if var:
+                v = sim.add_variation(); setattr(v.particles[1], c, 1.0)
+            else:
+                setattr(sim.particles[1], c, getattr(sim.particles[1], c) + delta)
+            sim.integrate(spec["t0"] + spec["tmax"], exact_finish_time=eft)
+            return (sum((vec(v.particles[i]) for i in range(3)), []) if var else sum((vec(sim.particles[i]) for i in range(3)), [])), sim.t
+    elif mode == "backward":
+        def run(delta, var):
+            sim = base(sign=-1.0)
+            if var:
+                v = sim.add_variation(); setattr(v.particles[1], c, 1.0)
+            else:
+                setattr(sim.particles[1], c, getattr(sim.particles[1], c) + delta)
+            sim.integrate(-spec["tmax"], exact_finish_time=eft)
+            return (sum((vec(v.particles[i]) for i in range(3)), []) if var else sum((vec(sim.particles[i]) for i in range(3)), [])), sim.t
+    elif mode in ("n1", "n2"):
+        nreal = 1 if mode == "n1" else 2
+        def run(delta, var):
+            sim = base(nreal)
+            sim.particles[0].vx = 0.3
+            k = nreal - 1
+            if var:
+                v = sim.add_variation(); setattr(v.particles[k], c, 1.0)
+            else:
+                setattr(sim.particles[k], c, getattr(sim.particles[k], c) + delta)
+            sim.integrate(spec["tmax"], exact_finish_time=eft)
+            return (sum((vec(v.particles[i]) for i in range(nreal)), []) if var else sum((vec(sim.particles[i]) for i in range(nreal)), [])), sim.t
+    elif mode in ("tp_first", "tp_last", "after_error"):
+        idx = 0 if mode == "tp_first" else 2
+        def run(delta, var):
+            sim = rb.Simulation()
+            sim.integrator = "whfast" if (mode == "after_error" and var) else integ
+            if sim.integrator == "whfast":
+                sim.dt = 0.02
+            sim.add(m=0., x=0.3, vy=1.2)
+            sim.add(m=1., x=-1.)
+            sim.add(m=0.0, x=1.0, vy=0.7, vz=0.1)
+            if var:
+                v = sim.add_variation(testparticle=idx); setattr(v.particles[0], c, 1.0)
+                if mode == "after_error":
+                    try:
+                        sim.integrate(1.0)
+                        raise RuntimeError("WHFast accepted a test-particle variation")
+                    except RuntimeError as e:
+                        if "not supported with WHFast" not in str(e):
+                            raise
+                    drain_messages(sim)
+                    if sim.t != 0.0:
+                        raise RuntimeError("time advanced although the integrator refused the configuration")
+                    sim.integrator = integ
+            else:
+                setattr(sim.particles[idx], c, getattr(sim.particles[idx], c) + delta)
+            sim.integrate(spec["tmax"])
+            return (vec(v.particles[0]) if var else vec(sim.particles[idx])), sim.t
+    else:
+        raise RuntimeError("unknown mode")
+    got, tv = run(0.0, True)
+
+    def F(shift):
+        out, t = run(shift.get(c, 0.0), False)
+        if t != tv:
+            raise RuntimeError("runs ended at different times %r %r" % (t, tv))
+        return out
+    ref, err = richardson(fd1(F, c, 1e-3 if not fixed else 4e-3), 1.0, levels=3 if fixed else 2)
+    ok, worst, tol, scale = judge(got, ref, err, {"ias15": 1e-6, "bs": 1e-4}.get(integ, 1e-7))
+    return ok, {"got": got[:9], "finite_difference": ref[:9], "worst": worst, "tolerance": tol}
+
+
+CHECKS = {"constructor": check_constructor, "trajectory": check_trajectory, "rescale": check_rescale, "megno": check_megno, "megno_order": check_megno_order, "python_vary": check_python_vary, "multiset": check_multiset, "softening": check_softening, "rescale_mass": check_rescale_mass, "derived": check_derived, "corner": check_corner}
 
 
 def pairs_available(lib):
@@ -647,6 +780,18 @@ def search(ctx, rebound, libdir):
             do("constructor", dict(gen_elements(rng, family(x)), x=x), ("d1", x))
         for x, y in pairs:
             do("constructor", dict(gen_elements(rng, family(x, y)), x=x, y=y), ("d2", x, y))
+
+    # (a'') constructors at degenerate elements
+    for corner in ("e0", "i0", "e0i0", "m0"):
+        for x in ("m", "a", "lambda", "h", "k", "ix", "iy"):
+            do("constructor", dict(gen_corner_elements(rng, "pal", corner), x=x), ("d1c", corner, x))
+        for x, y in [p_ for p_ in pairs if family(*p_) == "pal"][::3]:
+            do("constructor", dict(gen_corner_elements(rng, "pal", corner), x=x, y=y), ("d2c", corner, x, y))
+    for corner in ("i0", "esmall", "ebig", "ipi", "m0"):
+        for x in ("e", "inc", "Omega", "omega", "f"):
+            if corner == "i0" and x in ("Omega", "inc"):
+                continue      # d/dOmega, d/dinc at inc = 0 depend on the (arbitrary) node direction: documented singularity
+            do("constructor", dict(gen_corner_elements(rng, "orb", corner), x=x), ("d1c", corner, x))
 
     # (a') the Python entry points, every parameter and every exported pair in both orders
     for x in PARAMS:
@@ -736,6 +881,15 @@ def search(ctx, rebound, libdir):
         if sm is not None:
             spec["safe_mode"] = sm
         do("derived", spec, ("derived", integ) if sm is None else ("derived", integ, "safe_mode=%d" % sm))
+
+    # (b''') corners of the quantified space
+    for integ in ("ias15", "bs", "whfast", "leapfrog"):
+        for mode in ("late", "backward", "n1", "n2"):
+            do("corner", {"mode": mode, "integrator": integ, "coord": rng.choice(C6), "t0": rng.uniform(1, 4), "tmax": rng.uniform(3, 8),
+                          "m1": rng.choice([0.0, 1e-3]), "f1": rng.uniform(0, 6)}, ("corner", mode, integ))
+    for integ in ("ias15", "bs"):
+        for mode in ("tp_first", "tp_last", "after_error"):
+            do("corner", {"mode": mode, "integrator": integ, "coord": rng.choice(C6), "tmax": rng.uniform(3, 6)}, ("corner", mode, integ))
 
     # (c) rescaling and chaos indicators
     for integ, sm in (("ias15", None), ("whfast", 1), ("whfast", 0), ("leapfrog", None)):
